@@ -974,3 +974,30 @@ Lemma probes_independent_sound (ps : list probe) : forallb probe_independent_b p
 Proof.
   rewrite forallb_forall. intros H. rewrite Forall_forall. intros p Hp. apply probe_independent_sound. auto.
 Qed.
+
+(* =========================================================================================== *)
+(* 8. Guard of the bias loop; the log                                                            *)
+(* =========================================================================================== *)
+Lemma bias_loop_any_mode (need_main_thread : bool) (c : cfg) (t : nat) (ob : list nat) (s : store) :
+  Permutation ob (seq 0 (n_bias_items c t)) ->
+  seqi (runi (bias_loop_items need_main_thread c t ob) s)
+       (runi ((if c_use_script c && negb (c_script_after c) then script_items c else []) ++ map bias_item (active_biases t (c_biases c))) s).
+Proof.
+  intros HP. unfold bias_loop_items. destruct need_main_thread.
+  - apply seq_eq_refl.
+  - unfold smp_bias_work. apply (bias_phase _ _ (c_script c)).
+    + apply active_biases_NoDup.
+    + apply script_before_cases.
+    + exact HP.
+Qed.
+
+(* the log under any schedule is a rearrangement of the serial log: same messages, each as often *)
+Lemma log_rearrangement {A} (msgs : list (list A)) (order : list nat) :
+  Permutation order (seq 0 (length msgs)) -> Permutation (log_of msgs order) (log_of msgs (seq 0 (length msgs))).
+Proof.
+  intros H. unfold log_of. apply Permutation_concat. rewrite pick_all. apply pick_perm. exact H.
+Qed.
+
+(* on one thread the messages of one item stay together and in order: the log is the concatenation in execution order *)
+Lemma log_serial {A} (msgs : list (list A)) : log_of msgs (seq 0 (length msgs)) = concat msgs.
+Proof. unfold log_of. rewrite pick_all. reflexivity. Qed.
